@@ -262,6 +262,29 @@ def features(case, ref):
         for x in set(w):
             wcount[x] = wcount.get(x, 0) + 1
     f["static_waw"] = any(n >= 2 for n in wcount.values())
+    # MVP-6.2's one-slot-per-register transaction map: at a TAKEN conditional branch, a register written on the executed
+    # path since the previous conditional branch (still uncommitted) and also by one of the instructions right behind
+    # the branch in the text (its wrong path) loses the right-path value at the rollback
+    CB = BR2 | {"beqz", "bnez"} if isinstance(BR2, (set, frozenset)) else set(BR2) | {"beqz", "bnez"}
+    risk = False
+    since = set()
+    for k, i in enumerate(path):
+        if i >= len(ins):
+            continue
+        m, w, _ = ins[i]
+        if m in CB:
+            # the last executed instruction: taken iff falling through would have executed another instruction
+            taken = (path[k + 1] != i + 1) if k + 1 < len(path) else (i + 1 < len(ins))
+            if taken:
+                shadow = set()
+                for j in range(i + 1, min(len(ins), i + 13)):
+                    shadow |= set(ins[j][1])
+                if since & shadow:
+                    risk = True
+            since = set()
+        else:
+            since |= set(w)
+    f["txmap_risk"] = risk
     # same-line conflicts: a store and another access to one 64-byte line
     lines_st = {int(a[1:].split("w")[0]) // 64 for a in accs if a[0] == "S"}
     lines_all = [int(a[1:].split("w")[0]) // 64 for a in accs]
